@@ -11,6 +11,8 @@ line-protocol handler for the thread model (C18)
     `x y scale to_affine double neg eq add mul rmul ne radd getstate maybe_precompute from_affine mul_add`
   * `<schedule>`: comma-separated thread ids (`-` = empty); every entry lets that thread perform its next
     load / store of a shared field
+`thr_trace_k <p> <a> <b> <objects> <keys> <ops> <schedule>`: the same with key objects (ops `key_verifies:kid:G:hash:r:s`,
+`key_sign:G:hash:k:d`, `key_precompute:kid:newObj:lazy`, `key_raw:kid`, `key_compressed:kid`)
 answer: `ok <heap>;<heap>;… # <result>|<result>|…` — the shared cells after start-up and after every step, then the
 result of every thread (`-` if it has not returned).
 -/
@@ -21,12 +23,13 @@ structure ObjSpec where
   info : ObjInfo
   coords : Coords
   full : Bool
+  hidden : Bool := false     -- an object that `VerifyingKey.precompute` will create: shown only once a key refers to it
 
 def parseObj (c : CurveFp) (t : String) : Option ObjSpec :=
   match t.splitOn "," with
   | [x, y, z, o, g, pre] => do
       let x ← parseInt x; let y ← parseInt y; let z ← parseInt z; let o ← CurveWire.parseOrd o
-      some ⟨⟨c, o, g == "1"⟩, (x, y, z), pre == "F"⟩
+      some ⟨⟨c, o, g == "1"⟩, (x, y, z), pre == "F", pre == "N"⟩
   | _ => none
 
 def infoOf (objs : List ObjSpec) (id : Nat) : ObjInfo :=
@@ -41,13 +44,15 @@ def initTable (o : ObjSpec) : Table :=
     | .error _ => []
   else []
 
-def initHeap (objs : List ObjSpec) : Cell → Val := fun (id, f) =>
-  match objs[id]? with
-  | some o => match f with
-    | .coords => .coords o.coords
-    | .pre => .table (initTable o)
-    | .point => .ptr 0
-  | none => .coords (0, 0, 0)
+def initHeap (objs : List ObjSpec) (keys : List Nat := []) : Cell → Val := fun (id, f) =>
+  match f with
+  | .point => .ptr (keys.getD id 0)
+  | .coords => match objs[id]? with
+    | some o => .coords o.coords
+    | none => .coords (0, 0, 0)
+  | .pre => match objs[id]? with
+    | some o => .table (initTable o)
+    | none => .table []
 
 def parseOp (info : Nat → ObjInfo) (t : String) : Option P :=
   match t.splitOn ":" with
@@ -69,6 +74,18 @@ def parseOp (info : Nat → ObjInfo) (t : String) : Option P :=
   | ["mul_add", s, ka, o, kb] => do
       let s ← parseNat s; let ka ← parseInt ka; let o ← parseNat o; let kb ← parseInt kb
       some (toProg (mMulAdd info) { self := s, other := o, ka := ka, kb := kb })
+  | ["key_verifies", kid, gen, hash, r, sg] => do
+      let kid ← parseNat kid; let gen ← parseNat gen; let hash ← parseInt hash; let r ← parseInt r; let sg ← parseInt sg
+      some (toProg (mKeyVerifies info) { self := gen, key := kid, kc := hash, kd := r, ke := sg })
+  | ["key_sign", gen, hash, rk, d] => do
+      let gen ← parseNat gen; let hash ← parseInt hash; let rk ← parseInt rk; let d ← parseInt d
+      some (toProg (mKeySign info) { self := gen, ka := rk, kc := hash, kd := d })
+  | ["key_precompute", kid, newObj, lz] => do
+      let kid ← parseNat kid; let newObj ← parseNat newObj; let lz ← parseInt lz
+      some (toProg (mKeyPrecompute info) { self := 0, key := kid, newObj := newObj, ka := lz })
+  | ["key_raw", kid] => do let kid ← parseNat kid; some (toProg (mKeyRawEncode info) { self := 0, key := kid })
+  | ["key_compressed", kid] => do
+      let kid ← parseNat kid; some (toProg (mKeyCompressedEncode info) { self := 0, key := kid })
   | ["from_affine", o, g] => do
       let o ← parseNat o; let g ← parseInt g; some (toProg (mFromAffine info) { self := o, other := o, ka := g })
   | _ => none
@@ -78,10 +95,16 @@ def showTable (t : Table) : String :=
   | some a, some b => s!"T{t.length}:{a.1}:{a.2}:{b.1}:{b.2}"
   | _, _ => "T0"
 
-def showHeap (objs : List ObjSpec) (h : Cell → Val) : String :=
-  " ".intercalate ((List.range objs.length).map fun id =>
+def showHeap (objs : List ObjSpec) (h : Cell → Val) (nkeys : Nat := 0) : String :=
+  let referred := (List.range nkeys).map fun kid => asPtr (h (kid, .point))
+  let shown := (List.range objs.length).filter fun id =>
+    match objs[id]? with
+    | some o => !o.hidden || referred.contains id
+    | none => false
+  " ".intercalate ((shown.map fun id =>
     let c := asCoords (h (id, .coords))
-    s!"{c.1},{c.2.1},{c.2.2}/{showTable (asTable (h (id, .pre)))}")
+    s!"{c.1},{c.2.1},{c.2.2}/{showTable (asTable (h (id, .pre)))}") ++
+    (List.range nkeys).map fun kid => s!"k{kid}->{asPtr (h (kid, .point))}")
 
 def showOut : Res Out → String
   | .error e => "err " ++ e.name
@@ -100,11 +123,12 @@ def showResult (t : Thread Cell Val (Res Out)) : String :=
 
 def dummyC1 : Cell → Val := fun _ => .table []
 
-def runTrace (objs : List ObjSpec) : Cfg Cell Val (Res Out) → List Nat → List String → List String × Cfg Cell Val (Res Out)
+def runTrace (objs : List ObjSpec) (nkeys : Nat := 0) :
+    Cfg Cell Val (Res Out) → List Nat → List String → List String × Cfg Cell Val (Res Out)
   | c, [], acc => (acc.reverse, c)
   | c, i :: rest, acc =>
     let c' := step dummyC1 c i
-    runTrace objs c' rest (showHeap objs c'.heap :: acc)
+    runTrace objs nkeys c' rest (showHeap objs c'.heap nkeys :: acc)
 
 def handle (toks : List String) : Option String :=
   match toks with
@@ -115,7 +139,19 @@ def handle (toks : List String) : Option String :=
       let progs ← (ops.splitOn "|").mapM (parseOp info)
       let sched ← if sched = "-" then some [] else (sched.splitOn ",").mapM (·.toNat?)
       let c0 : Cfg Cell Val (Res Out) := ⟨initHeap objs, progs.map fun p => ⟨p, allAny, fun _ => True⟩⟩
-      let (states, cfin) := runTrace objs c0 sched [showHeap objs c0.heap]
+      let (states, cfin) := runTrace objs 0 c0 sched [showHeap objs c0.heap]
+      some ("ok " ++ ";".intercalate states ++ " # " ++ "|".intercalate (cfin.thr.map showResult))
+  | ["thr_trace_k", p, a, b, objs, keys, ops, sched] => do
+      -- with key objects: `<keys>` = `,`-separated initial referents (key id = position); an object spec whose last
+      -- field is `N` is one that `precompute` will publish (hidden until a key refers to it)
+      let c ← CurveWire.parseCurve3 p a b
+      let objs ← (objs.splitOn "|").mapM (parseObj c)
+      let keys ← (keys.splitOn ",").mapM (·.toNat?)
+      let info := infoOf objs
+      let progs ← (ops.splitOn "|").mapM (parseOp info)
+      let sched ← if sched = "-" then some [] else (sched.splitOn ",").mapM (·.toNat?)
+      let c0 : Cfg Cell Val (Res Out) := ⟨initHeap objs keys, progs.map fun p => ⟨p, allAny, fun _ => True⟩⟩
+      let (states, cfin) := runTrace objs keys.length c0 sched [showHeap objs c0.heap keys.length]
       some ("ok " ++ ";".intercalate states ++ " # " ++ "|".intercalate (cfin.thr.map showResult))
   | _ => none
 
